@@ -131,7 +131,18 @@ impl Read for SchedReader<'_> {
                 Some(Step::Fail) => {
                     self.i += 1;
                     self.fail_served += 1;
-                    return Err(io::Error::new(io::ErrorKind::Other, "pvh: injected hard read error"));
+                    // every kind but Interrupted is a hard error
+                    const KINDS: [io::ErrorKind; 8] = [
+                        io::ErrorKind::Other,
+                        io::ErrorKind::UnexpectedEof,
+                        io::ErrorKind::BrokenPipe,
+                        io::ErrorKind::TimedOut,
+                        io::ErrorKind::InvalidData,
+                        io::ErrorKind::ConnectionReset,
+                        io::ErrorKind::WouldBlock,
+                        io::ErrorKind::PermissionDenied,
+                    ];
+                    return Err(io::Error::new(KINDS[(self.pos + self.data.len()) % KINDS.len()], "pvh: injected hard read error"));
                 }
                 Some(Step::Upto(p)) => {
                     let p = (*p).min(self.data.len());
